@@ -45,7 +45,7 @@ def seeded():
     rows.append("")
     rows.append("%d seeded changes filed, %d caught by the registered quick checks." % (n, caught))
     # per round / per property matrix
-    rounds = {"m": "round 1", "n": "round 2", "p": "round 3"}
+    rounds = {"m": "round 1", "n": "round 2", "p": "round 3", "q": "round 4"}
     stat = {}
     for d in sorted(glob.glob(os.path.join(V, "seeded", "*"))):
         mf = os.path.join(d, "meta.json")
